@@ -3,9 +3,9 @@ import sys
 
 from props import _cluster
 
-THEOREMS = ['XmlDiffModel.C13_never_named', 'XmlDiffModel.C13_attr_actions_avoid_ignored']
-PARTIAL = {'C13_roundtrip, C13_equal_mod_S_empty': 'not proved; decided per run by the oracles (patch result equals R after erasing ignored attributes; documents equal up to ignored attributes give [])'}
-LEAN_MODULES = ['XmlDiffModel.Props.Replay', 'XmlDiffModel.Props.C13']
+THEOREMS = ['XmlDiffModel.C13_never_named', 'XmlDiffModel.C13_attr_actions_avoid_ignored', 'XmlDiffModel.C13_patched_equals_right_up_to_ignored']
+PARTIAL = {'C13_equal_mod_S_empty': 'proved: no action names an ignored attribute, and the patched left document equals the right one up to the ignored attributes (for every good matching, any size). NOT proved: documents that differ only in ignored attributes give [] (needs the matcher to pair counterparts); decided per run on the equal / ignored streams.'}
+LEAN_MODULES = ['XmlDiffModel.Props.C01', 'XmlDiffModel.Props.Replay', 'XmlDiffModel.Props.C13']
 SOURCES = ['diff.Differ.node_attribs', 'diff.Differ.update_node_attr', 'diff.Differ.node_ratio', 'diff.Differ.node_text']
 RULE = "Differ cluster, stream 'ignored': random ignored_attrs subsets of the attribute pool combined with the other options; oracles: no action names an ignored attribute, patch result equals R after erasing the ignored attributes, documents equal up to ignored attributes give []. Non-trivial = script has >= 2 action types or a move."
 ASSUMPTIONS = [
